@@ -607,13 +607,13 @@ Definition c12_known (sc : scen) (o : apiop) (fk : rop) : bool :=
   end.
 
 (* [dead]: locks whose raw operation panicked so far *)
-Definition judge_C12 (relaxed : bool) (sc : scen) (dead : list lock)
+Definition judge_C12 (relaxed : bool) (kn : bool) (sc : scen) (dead : list lock)
            (ms : tid -> mthread) (prev : list rawst) (t : tid) (o : apiop) (co : callobs) : bool :=
   let r := co_ret co in
   let evs := co_evs co in
   (* a lock whose operation panicked refuses every later acquisition that needs it *)
   (match o with
-   | AAcquire c _ f =>
+   | AAcquire c m f =>
        if existsb (fun l => memb l dead) (leaves (shape_of sc c)) then
          match r with
          | RSkipped => true
@@ -627,7 +627,13 @@ Definition judge_C12 (relaxed : bool) (sc : scen) (dead : list lock)
          | ROk | RPoisoned => false
          | _ => true
          end
-       else true
+       else
+         (* ... and kills ONLY that lock: a single lock none of whose operations panicked, and which nobody holds, does
+            not refuse a try *)
+         match leaves (shape_of sc c), f, r with
+         | [l], FTry, RWouldBlock => (relaxed && kn) || negb (leaf_avail m (nth l prev raw_free))
+         | _, _, _ => true
+         end
    | _ => true
    end) &&
   match first_fault evs with
@@ -650,21 +656,22 @@ Definition judge_C12 (relaxed : bool) (sc : scen) (dead : list lock)
                            Nat.leb 1 (release_faults_of l evs)) mine)
   end.
 
-Fixpoint c12_fold (relaxed : bool) (sc : scen) (dead : list lock) (ms : tid -> mthread) (prev : list rawst)
+Fixpoint c12_fold (relaxed : bool) (kn : bool) (sc : scen) (dead : list lock) (ms : tid -> mthread) (prev : list rawst)
          (hist : list (tid * apiop)) (obs : list callobs) : bool :=
   match hist, obs with
   | _, [] => true
   | [], _ :: _ => false
   | (t, o) :: hr, co :: orr =>
-      Nat.eqb t (co_tid co) && judge_C12 relaxed sc dead ms prev t o co &&
+      Nat.eqb t (co_tid co) && judge_C12 relaxed kn sc dead ms prev t o co &&
       (if stop_code (co_ret co) then true
-       else c12_fold relaxed sc
+       else c12_fold relaxed
+              (kn || match first_fault (co_evs co) with Some (fk, _) => c12_known sc o fk | None => false end) sc
               (match first_fault (co_evs co) with Some (_, l) => l :: dead | None => dead end)
               (upd ms t (track (ms t) o (co_ret co))) (co_holds co) hr orr)
   end.
 
 Definition mon_C12 (relaxed : bool) (sc : scen) (obs : list callobs) : bool :=
-  c12_fold relaxed sc [] (fun _ => mt0) (pre_holds sc) (sc_hist sc) obs.
+  c12_fold relaxed false sc [] (fun _ => mt0) (pre_holds sc) (sc_hist sc) obs.
 
 Definition ps_C12 : projspec := mkps ev_is_raw true false false.
 Definition check_C12 := check_with2 ps_C12 (mon_C12 false) (mon_C12 true).
